@@ -167,6 +167,17 @@ Section Merge.
     | _ => seq_run start its
     end.
 
+  (* SequentialMultiIterator::new_or_single_it for ANY outer iterator: the short-cut is taken exactly when the outer
+     iterator's size_hint() is (1, Some(1)) and it then yields a source; `hint` is what size_hint() returned.  The std
+     contract (lower bound <= remaining length <= upper bound) is the hypothesis `hint_truthful` of the theorems. *)
+  Definition seq_run_or_single_h (hint : N * option N) (start : N) (its : list iter) : res (list A) :=
+    match hint with
+    | (1, Some 1) => match its with it :: _ => Ok it | [] => seq_run start [] end
+    | _ => seq_run start its
+    end.
+  Definition hint_truthful (hint : N * option N) (its : list iter) : Prop :=
+    fst hint <= N.of_nat (length its) /\ match snd hint with Some h => N.of_nat (length its) <= h | None => True end.
+
   (* the numbering the property talks about *)
   Fixpoint number (idx : N) (l : list A) : list A :=
     match l with [] => [] | m :: r => set_index idx m :: number (idx + 1) r end.
